@@ -531,7 +531,7 @@ PROPS = {
         model="Model/BufTraits.v",
         run_fn="run_bcase",
         theorems=["C14_exposed_pairs_in_bounds", "C14_reported_lengths_agree",
-                  "C14_set_init_appends_in_order", "C14_limit_never_exceeded"],
+                  "C14_set_init_appends_in_order", "C14_limit_never_exceeded", "C14_counting_wrapper_counts_every_transfer"],
         rule="one splitmix64 stream per case (VERIF_SEED, index): family in {Buf x 12 provided types, BufMut, "
              "BufSlice/BufMutSlice as arrays and tuples of arity 1..8}, lengths/capacities with empty and full "
              "buffers, limit in {none, <= total, 2^32+k, k*2^32+j, boundary pool incl. usize::MAX}, 1..5 "
@@ -650,3 +650,7 @@ PROPS = {
 # C02: an operation receives its own result only if the completion entry it is read from is not
 # given back to the kernel first (the completion-ring mechanics of C05: seed C02-c).
 PROPS["C02"]["also_drivers"] = ["C05"]
+# C14: the skipping and counting wrappers (SkipBuf, ReadNBuf) are private to the crate; the only
+# way to drive the real ones is through write_all / read_n and their relatives, i.e. C10's driver
+# (seed C14-c: the counting wrapper missed a transfer of 0 bytes).
+PROPS["C14"]["also_drivers"] = ["C10"]
